@@ -737,9 +737,77 @@ void doAppendDim(Session &s, const json &g) {
 
 nix::FileMode modeOf(const std::string &m) { return m == "ro" ? nix::FileMode::ReadOnly : m == "rw" ? nix::FileMode::ReadWrite : nix::FileMode::Overwrite; }
 
+// Handles that are not entities of the model but are obtained from them: dimension descriptors (generic and typed), data
+// views, and the data side of properties, frames and features.  C11 speaks of "any number of entity handles (blocks, arrays,
+// dimensions, tags, sections, properties, data views) still alive when close is called": each of them must fail with an
+// exception afterwards, on a getter that needs the file and on a mutator.
+struct Aux { std::string what; std::function<void()> get, mut; };
+std::vector<Aux> collectAux(Session &s) {
+    std::vector<Aux> out;
+    for (auto &p : s.fresh) {
+        if (out.size() >= 40) break;
+        Ent &e = p.second;
+        std::string tag = e.kind + " eid " + std::to_string(p.first);
+        try {
+            if (e.kind == "array") {
+                nix::DataArray a = e.array;
+                for (auto &d : a.dimensions()) {
+                    nix::Dimension dg = d;
+                    std::string w = "dimension " + std::to_string(d.index()) + " of " + tag;
+                    if (d.dimensionType() == nix::DimensionType::Sample) {
+                        nix::SampledDimension sd = d.asSampledDimension();
+                        out.push_back({w + " (sampled)", [sd]() { (void) sd.samplingInterval(); (void) sd.label(); }, [sd]() mutable { sd.label("x"); }});
+                        out.push_back({w + " (generic)", [dg]() { (void) dg.asSampledDimension().samplingInterval(); }, [dg]() mutable { dg.asSampledDimension().offset(1.0); }});
+                    } else if (d.dimensionType() == nix::DimensionType::Range) {
+                        nix::RangeDimension rd = d.asRangeDimension();
+                        out.push_back({w + " (range)", [rd]() { (void) rd.ticks(); }, [rd]() mutable { rd.unit("s"); }});
+                    } else if (d.dimensionType() == nix::DimensionType::Set) {
+                        nix::SetDimension st = d.asSetDimension();
+                        out.push_back({w + " (set)", [st]() { (void) st.labels(); }, [st]() mutable { st.labels(std::vector<std::string>{"q"}); }});
+                    } else if (d.dimensionType() == nix::DimensionType::DataFrame) {
+                        nix::DataFrameDimension fd = d.asDataFrameDimension();
+                        out.push_back({w + " (data frame)", [fd]() { (void) fd.columnIndex(); }, [fd]() { (void) fd.data(); }});
+                    }
+                }
+                nix::NDSize ext = a.dataExtent();
+                if (ext.size() > 0 && ext.nelms() > 0) {
+                    nix::NDSize off(ext.size(), 0);
+                    auto dv = std::make_shared<nix::DataView>(a, ext, off);
+                    size_t n = (size_t) ext.nelms();
+                    out.push_back({"data view of " + tag,
+                                   [dv, ext, off, n]() { std::vector<double> b(n); dv->getData(nix::DataType::Double, b.data(), ext, off); },
+                                   [dv, ext, off, n]() { std::vector<double> b(n, 1.0); dv->setData(nix::DataType::Double, b.data(), ext, off); }});
+                    out.push_back({"data of " + tag,
+                                   [a, ext, off, n]() { std::vector<double> b(n); a.getData(nix::DataType::Double, b.data(), ext, off); },
+                                   [a, ext, off, n]() mutable { std::vector<double> b(n, 1.0); a.setData(nix::DataType::Double, b.data(), ext, off); }});
+                }
+            } else if (e.kind == "prop") {
+                nix::Property pr = e.prop;
+                out.push_back({"values of " + tag, [pr]() { (void) pr.values(); }, [pr]() mutable { pr.values({nix::Variant(2.5)}); }});
+            } else if (e.kind == "frame") {
+                nix::DataFrame fr = e.frame;
+                out.push_back({"rows of " + tag, [fr]() { (void) fr.rows(); (void) fr.columns(); }, [fr]() mutable { fr.rows(fr.rows() + 1); }});
+            } else if (e.kind == "feature") {
+                nix::Feature ft = e.feature;
+                out.push_back({"data of " + tag, [ft]() { (void) ft.data(); }, [ft]() mutable { ft.linkType(nix::LinkType::Untagged); }});
+            }
+        } catch (...) { /* collecting is best effort: what cannot be obtained is not judged */ }
+    }
+    return out;
+}
+
 void closeSession(Session &s) {
-    if (s.open) { json pre = observe(s); for (auto &x : pre["issues"]) { std::string m = x.get<std::string>(); if (m.rfind("before close: ", 0) != 0 && s.carried.size() < 10) s.carried.push_back("before close: " + m); } }
+    std::vector<Aux> aux;
+    if (s.open) { json pre = observe(s); for (auto &x : pre["issues"]) { std::string m = x.get<std::string>(); if (m.rfind("before close: ", 0) != 0 && s.carried.size() < 10) s.carried.push_back("before close: " + m); }
+                  aux = collectAux(s); }
     s.f.close(); s.open = false;
+    for (auto &x : aux) {
+        bool g = false, m = false;
+        try { x.get(); } catch (...) { g = true; }
+        try { x.mut(); } catch (...) { m = true; }
+        if (!(g && m) && s.carried.size() < 14)
+            s.carried.push_back("after close: " + x.what + (g ? "" : ": getter still works") + (m ? "" : ": mutator still works"));
+    }
 }
 
 void openSession(Session &s, const std::string &m) {
